@@ -55,12 +55,30 @@ def check_total(res, case, rec, prop_feature, key='res'):
     return o
 
 
+# Which observed error classes satisfy an expected one. The properties name overflow, division by zero,
+# missing key and undeclared reference specifically; for everything else ("an error") the concrete
+# ExecutionError variant is the implementation's business, so those classes are interchangeable.
+GENERIC = {'type', 'function', 'arg_count', 'other'}
+ERR_COMPAT = {
+    'overflow': {'overflow'},
+    'div_by_zero': {'div_by_zero'},
+    'no_such_key': {'no_such_key'},
+    'undeclared': {'undeclared'},
+    'not_comparable': {'not_comparable'} | GENERIC,
+    'type': GENERIC | {'not_comparable'},
+    'function': GENERIC | {'overflow'},          # conversion / host failure: "an error"
+    'arg_count': GENERIC,
+    'other': GENERIC,
+    '*': {'overflow', 'div_by_zero', 'no_such_key', 'undeclared', 'not_comparable'} | GENERIC,
+}
+
+
 def same_outcome(exp, obs):
     """exp: ('ok', v) | ('err', cls[, detail]); obs: normalised driver outcome."""
     if exp[0] == 'ok':
         return obs[0] == 'ok' and struct_eq(exp[1], obs[1])
     if exp[0] == 'err':
-        return obs[0] == 'err' and obs[1] == exp[1]
+        return obs[0] == 'err' and obs[1] in ERR_COMPAT.get(exp[1], {exp[1]})
     return False
 
 
